@@ -78,6 +78,9 @@ def case_pattern(rng: Any, ctx: Ctx, index: int) -> None:
     rr = ([('blocks', f) for f in range(4)] + [('nearmiss', f) for f in range(patterns.N_NEARMISS)]
           + [(n, None) for n in names if n not in ('blocks', 'nearmiss')])
     k = 1 + int(rng.integers(3) == 0) + int(rng.integers(6) == 0)
+    bare = bool(rng.integers(4) == 0)        # the pattern alone: chains whose operands ALL cancel (the rule must synthesise the identity)
+    if bare:
+        k = 1
     maxctx = 14 if ctx.thorough else 6
 
     def build() -> Any:
@@ -94,10 +97,10 @@ def case_pattern(rng: Any, ctx: Ctx, index: int) -> None:
                 tag, seg = patterns.PATTERNS[name](rng)
             segs.append(seg)
             tags.append(tag)
-        n_left = int(rng.integers(0, maxctx // 2 + 1))
-        n_right = int(rng.integers(0, maxctx // 2 + 1))
-        n_mid = int(rng.integers(0, 3))
-        out = patterns.embed(rng, segs, n_left, n_mid, n_right, scalars=int(rng.integers(0, 4)))
+        n_left = int(rng.integers(0, maxctx // 2 + 1)) * (not bare)
+        n_right = int(rng.integers(0, maxctx // 2 + 1)) * (not bare)
+        n_mid = int(rng.integers(0, 3)) * (not bare)
+        out = patterns.embed(rng, segs, n_left, n_mid, n_right, scalars=int(rng.integers(0, 4)) * (not bare))
         return out, tags
 
     (out, tags) = generate(build)
@@ -124,7 +127,45 @@ def case_pattern(rng: Any, ctx: Ctx, index: int) -> None:
     reduce_all(e, 'pattern:' + '+'.join(t.split('/')[0] for t in tags))
 
 
+def _silent(solution: Any) -> None:
+    return None
+
+
+def case_config(rng: Any, ctx: Ctx, index: int) -> None:
+    """History across solver configurations: a solver-based inverse built inside one configuration block and reduced (alone
+    or inside a larger expression) outside of it must still denote the same map."""
+    import jax
+    import jax.numpy as jnp
+    import lineax as lx
+    import numpy as np
+    from furax import Config
+    from furax._base.blocks import BlockDiagonalOperator
+    from furax._base.core import CompositionOperator
+    from furax._base.dense import DenseBlockDiagonalOperator
+    from furax._base.diagonal import DiagonalOperator
+
+    gen.begin_case(rng)
+    dt = gen.case_dtype(rng)
+    n = int(rng.integers(2, 6))
+    s = gen.S((n,), dt)
+    m = rng.normal(size=(n, n)) + 3 * np.eye(n)                       # well-conditioned, NOT symmetric
+    a = DenseBlockDiagonalOperator(jnp.asarray(m, dtype=dt), s, 'ij,j->i')
+    d = DiagonalOperator(jnp.asarray(rng.uniform(1, 2, n), dtype=dt), in_structure=s)
+    composite = gen.pick(rng, [lambda: a @ d, lambda: d @ a, lambda: a + d, lambda: CompositionOperator([d, a, d])])()
+    which = gen.pick(rng, ['LU', 'NormalCG'])
+    solver = lx.LU() if which == 'LU' else lx.NormalCG(rtol=1e-7, atol=1e-7, max_steps=2000)
+    with Config(solver=solver, solver_callback=_silent):      # (the default callback reads iteration counts direct solvers do not report)
+        inv = composite.I
+        built_inside = gen.pick(rng, [lambda: inv, lambda: inv @ d, lambda: d @ inv, lambda: inv + d,
+                                      lambda: BlockDiagonalOperator([inv, d])])()
+    LOG.count('C01.config', which)
+    reduce_all(built_inside, 'config-crossing')                      # reduced under the ambient (default) configuration
+    with Config(solver=lx.CG(rtol=1e-2, atol=1e-2, max_steps=1), solver_callback=_silent):
+        reduce_all(built_inside, 'config-crossing')                  # ... and under a third one
+
+
 def run(ctx: Ctx) -> None:
     enable('reduce')
+    drive(ctx, case_config, 100, 1000, stream=2, part='config')
     drive(ctx, case_random, 1200, 12000, stream=0, part='random')
     drive(ctx, case_pattern, 1200, 12000, stream=1, part='pattern')
